@@ -247,3 +247,19 @@ Fixpoint lifecycle_run (marked dangling : list name) (evs : list objev) : bool :
 
 Definition lifecycle_ok (evs : list objev) : bool := lifecycle_run [] [] evs.
 
+(* ---- which connection the manager is told about ----
+   In the model a context knows its connections by the names in [n_peers]: these are the LOCAL ALIASES of the
+   message router (the peer's context name for an outgoing connection, "$client_N" for an incoming one), a
+   connection is the pair (context, alias), and the step IPeerRemoved x — handle_peer_context_removed(x) —
+   names the alias of the connection that closed: it leaves every other connection of the context, in
+   particular another connection to the same peer context, and the subscriptions made over it, untouched.
+   The thread-level runs record, around every close, the aliases the router of a context knew before, the
+   argument of each handle_peer_context_removed call, and the aliases it knows afterwards. *)
+Definition peer_notice_ok (c : list name * list name * list name) : bool :=
+  let '(before, told, after) := c in
+  forallb (fun x => smem str_eqb x before) told &&
+  match node_run (w_peers before (init_node [] [])) (map IPeerRemoved told) with
+  | Some (n, _) => set_eqb str_eqb (n_peers n) after
+  | None => false
+  end.
+
